@@ -888,9 +888,30 @@ impl CoreDocument {
     L: FnMut(CoreDID) -> std::result::Result<CoreDID, E>,
     M: FnOnce(crate::Error) -> E,
   {
+    // The updated methods and services are collected into `OrderedSet`s, which silently drop an entry whose (updated)
+    // identifier equals that of an earlier entry: compare the sizes to report such a collision instead of returning a
+    // document that lost a method or a service. (Controllers are a plain set of DIDs: merging equal ones loses nothing.)
+    let sizes = |data: &CoreDocumentData| {
+      [
+        data.verification_method.len(),
+        data.authentication.len(),
+        data.assertion_method.len(),
+        data.key_agreement.len(),
+        data.capability_delegation.len(),
+        data.capability_invocation.len(),
+        data.service.len(),
+      ]
+    };
+    let sizes_before = sizes(&self.data);
     let data = self
       .data
       .try_map(id_update, controller_update, methods_update, service_update)?;
+    if sizes(&data) != sizes_before {
+      return Err(error_cast(Error::InvalidDocument(
+        "the update causes entries with identical identifiers",
+        None,
+      )));
+    }
     CoreDocument::try_from(data).map_err(error_cast)
   }
 
